@@ -235,8 +235,10 @@ func (h *HttpFilesystemLoader) Get(name string) (io.Reader, error) {
 	fullPath := name
 	if h.baseDir != "" {
 		// (joined, not pasted together: for a rooted name "base" + "/" + "/x.html" is
-		// "base//x.html", which an http.FileSystem over an fs.FS rejects)
-		fullPath = path.Join(h.baseDir, name)
+		// "base//x.html", which an http.FileSystem over an fs.FS rejects. The name is
+		// cleaned as a rooted path first: path.Join("base", "../x.html") is "x.html" - a
+		// name that climbs with ".." would leave the base directory)
+		fullPath = path.Join(h.baseDir, path.Clean("/"+name))
 	}
 
 	return h.fs.Open(fullPath)
